@@ -90,6 +90,13 @@ Tick ==
   /\ Step([op |-> "wait"])
   /\ UNCHANGED <<srv, reg, got, tried, last>>
 
+\* the provider may register and fetch a source before any lookup asks for it (a warm-up at start-up, a prefetch)
+Warm(u) ==
+  /\ ~reg[u]
+  /\ reg' = [reg EXCEPT ![u] = TRUE] /\ tried' = [tried EXCEPT ![u] = TRUE]
+  /\ got' = IF srv[u].mode = "ok" THEN [got EXCEPT ![u] = srv[u].gen] ELSE got
+  /\ UNCHANGED <<srv, due, last, hist>>
+
 Refresh(u) ==
   /\ due[u]
   /\ due' = [due EXCEPT ![u] = FALSE]
@@ -104,7 +111,7 @@ Next ==
      /\ \/ \E f \in Filters : GetStatic(f) \/ GetFetched(f)
         \/ \E u \in Uris : Rotate(u) \/ \E m \in Modes : SetMode(u, m)
         \/ Tick
-  \/ \E u \in Uris : Refresh(u)
+  \/ \E u \in Uris : Refresh(u) \/ Warm(u)
 
 Spec == Init /\ [][Next]_vars
 
